@@ -13,11 +13,11 @@ demodir=$(python3 -c "import json;print(json.load(open('$dir/meta.json')).get('d
 tests=$(grep -o '^func Test[A-Za-z0-9_]*' "$dir/demo_test.go" | sed 's/func //' | paste -sd'|')
 # 1. demo passes without the patch
 cp "$dir/demo_test.go" "$wt/$demodir/zz_demo_test.go"
-( cd "$wt/$demodir" && go test -vet=off -count=1 -run "^($tests)\$" -timeout 5m . >/tmp/evalmut_clean.log 2>&1 ); clean=$?
+( cd "$wt/$demodir" && go test -vet=off -count=1 -run "^($tests)\$" -timeout 5m . >/tmp/evalmut_clean_$$.log 2>&1 ); clean=$?
 # 2. apply, build, demo fails
 ( cd "$wt" && git apply "$dir/patch.diff" ) || { echo "RESULT $dir patch-does-not-apply"; exit 0; }
-( cd "$wt" && go build ./... >/tmp/evalmut_build.log 2>&1 ) || { echo "RESULT $dir does-not-compile"; exit 0; }
-( cd "$wt/$demodir" && go test -vet=off -count=1 -run "^($tests)\$" -timeout 5m . >/tmp/evalmut_mut.log 2>&1 ); mut=$?
+( cd "$wt" && go build ./... >/tmp/evalmut_build_$$.log 2>&1 ) || { echo "RESULT $dir does-not-compile"; exit 0; }
+( cd "$wt/$demodir" && go test -vet=off -count=1 -run "^($tests)\$" -timeout 5m . >/tmp/evalmut_mut_$$.log 2>&1 ); mut=$?
 rm -f "$wt/$demodir/zz_demo_test.go"
 # 3. baseline with the patch (in the worktree)
 ( cd "$wt" && go test -json -vet=off -count=1 -timeout 25m ./... 2>/dev/null | python3 -c "
@@ -30,8 +30,8 @@ for l in sys.stdin:
 base=json.load(open('/root/.vp/BASELINE.json'))['stable_pass']
 bad=[t for t in base if st.get(t)!='pass']
 print('baseline_bad=%d'%len(bad)); [print('  ',t) for t in bad[:5]]
-" ) > /tmp/evalmut_base.log 2>&1
-basebad=$(grep -o 'baseline_bad=[0-9]*' /tmp/evalmut_base.log | cut -d= -f2)
+" ) > /tmp/evalmut_base_$$.log 2>&1
+basebad=$(grep -o 'baseline_bad=[0-9]*' /tmp/evalmut_base_$$.log | cut -d= -f2)
 echo "CONFIRM $dir demo_clean_exit=$clean demo_mutant_exit=$mut baseline_bad=$basebad"
 # 4. run the checks against the scratch worktree with the patch applied (/repo itself stays untouched)
 for c in $checks; do
